@@ -181,13 +181,34 @@ pub fn generate(prop: Prop, seed: u64, run: u64, thorough: bool) -> RunSpec {
         for _ in 0..rng.range(1, 2) {
             let at = rng.below(spec.ops.len() as u64) as usize;
             if !spec.faults.iter().any(|f| f.at == at) {
-                spec.faults.push(Fault { at, nth: 1 + rng.below(9) });
+                spec.faults.push(Fault { at, nth: 1 + rng.below(9), site: None });
+            }
+        }
+    }
+    let zst = spec.cfg.elem.is_zst();
+    if prop == Prop::C05 && spec.cfg.elem.has_drop() && rng.chance(if zst { 3 } else { 1 }, 4) && !spec.ops.is_empty() {
+        // a destructor of a stored object panics: the nth one run inside an operation that
+        // drops elements in place (retain, drain_filter, clear, early-dropped iterators,
+        // clone_from's destination), or inside any operation
+        let dropping: Vec<usize> = spec
+            .ops
+            .iter()
+            .enumerate()
+            .filter(|(_, o)| matches!(o.kind(), "retain" | "set_retain" | "drain_filter" | "set_drain_filter" | "clear" | "set_clear" | "drain" | "set_drain" | "into_iter" | "set_into_iter" | "clone_from" | "set_clone_from"))
+            .map(|(i, _)| i)
+            .collect();
+        // (a zero-sized collection holds one element: its states last one call, so several
+        // operations of such a run get a fault)
+        for _ in 0..if zst { rng.range(1, 5) } else { 1 } {
+            let at = if !dropping.is_empty() && rng.chance(3, 4) { *rng.pick(&dropping) } else { rng.below(spec.ops.len() as u64) as usize };
+            if !spec.faults.iter().any(|f| f.at == at) {
+                spec.faults.push(Fault { at, nth: 1 + rng.below(if zst { 2 } else { 3 }), site: Some(ctx::Site::Drop) });
             }
         }
     }
     if prop == Prop::C08 && spec.mode.is_none() && rng.chance(1, 3) && !spec.ops.is_empty() {
         let at = rng.below(spec.ops.len() as u64) as usize;
-        spec.faults.push(Fault { at, nth: 1 + rng.below(9) });
+        spec.faults.push(Fault { at, nth: 1 + rng.below(9), site: None });
     }
     if prop == Prop::C17 && rng.chance(1, 2) && !spec.ops.is_empty() {
         // fault schedule: one or two panics at early callbacks of random steps
@@ -195,7 +216,7 @@ pub fn generate(prop: Prop, seed: u64, run: u64, thorough: bool) -> RunSpec {
             let at = rng.below(spec.ops.len() as u64) as usize;
             let nth = 1 + rng.below(6);
             if !spec.faults.iter().any(|f| f.at == at) {
-                spec.faults.push(Fault { at, nth });
+                spec.faults.push(Fault { at, nth, site: None });
             }
         }
     }
@@ -468,7 +489,7 @@ fn cmd_show(args: &[String]) -> i32 {
         let mut it = f.split(':');
         let at: usize = it.next().unwrap().parse().expect("fault step");
         let nth: u64 = it.next().unwrap().parse().expect("fault ordinal");
-        spec.faults.push(Fault { at, nth });
+        spec.faults.push(Fault { at, nth, site: None });
     }
     let rf = ReplayFile {
         property: prop.name(),
